@@ -221,8 +221,20 @@ fn decompile_inner(truth: &mut Truth, tool: Tool, bytes: &[u8], opts: &DecompOpt
 /// Run the real CLI (this binary in as-truth-core mode) in a subprocess.
 pub struct CliOut { pub status: i32, pub stdout: Vec<u8>, pub stderr: Vec<u8> }
 
+/// A private copy of this executable (a concurrent `cargo build` may replace the original while we run).
+pub fn exe_snapshot() -> std::path::PathBuf {
+    static SNAP: std::sync::OnceLock<std::path::PathBuf> = std::sync::OnceLock::new();
+    SNAP.get_or_init(|| {
+        let dest = scratch_dir().join("truth-verif-snapshot");
+        match std::fs::copy("/proc/self/exe", &dest) {
+            Ok(_) => dest,
+            Err(_) => std::env::current_exe().expect("current_exe"),
+        }
+    }).clone()
+}
+
 pub fn run_cli(args: &[String], env: &[(&str, String)]) -> CliOut {
-    let exe = std::env::current_exe().expect("current_exe");
+    let exe = exe_snapshot();
     let mut cmd = std::process::Command::new(exe);
     cmd.arg("as-truth-core").args(args);
     cmd.env_remove("TRUTH_MAP_PATH").env_remove("_TRUTH_DEBUG__TEST").env("RUST_BACKTRACE", "0");
